@@ -49,6 +49,8 @@ func init() {
 	add("window-end-0", false, "toma", "", "topa", "")
 	add("window-end-beyond", false, "toma", "", "topa", "")
 	add("window-start-gt-end", false, "toma", "", "topa", "")
+	add("window-start-negative", true, "toma", "", "topa", "")
+	add("window-end-negative", true, "toma", "", "topa", "")
 	add("bad-suffix", false, "variants", "anno", "samvar", "anno")
 	add("no-size-option", false, "toprank", "", "toprank-csv", "")
 
@@ -283,6 +285,11 @@ func runC18(c *fw.Ctx, idx int) fw.Result {
 		extra = []string{"--end", "0"}
 	case "window-end-beyond":
 		extra = []string{"--end", fmt.Sprint(b.W + 1 + idx%3)}
+	case "window-start-negative":
+		// -1 is the flag's "unset" default and not judged
+		extra = []string{fmt.Sprintf("--start=%d", []int{-2, -3, -b.W, -1000}[(idx+posIndex(4, pos))%4])}
+	case "window-end-negative":
+		extra = []string{fmt.Sprintf("--end=%d", []int{-2, -7, -b.W - 1, -1 << 31}[(idx+posIndex(4, pos))%4])}
 	case "window-start-gt-end":
 		s := 2 + idx%3
 		if s > b.W {
